@@ -38,7 +38,8 @@ def _ansi_tokenize(ansi_text: str) -> Iterable[_AnsiToken]:
         sgr, osc = match.groups()
         if start > position:
             yield _AnsiToken(remove_csi(ansi_text[position:start]))
-        yield _AnsiToken("", sgr, osc)
+        # "ESC[m" (no parameters) is a reset, the same as "ESC[0m"
+        yield _AnsiToken("", "0" if sgr == "" else sgr, osc)
         position = end
     if position < len(ansi_text):
         yield _AnsiToken(remove_csi(ansi_text[position:]))
